@@ -242,19 +242,16 @@ Definition present_of (calls : list event) (k : mkind) (sn : snap) : list (nat *
 Definition prefix_ok (m n : nat) (ps : list (nat * nat)) : bool :=
   plist_eqb ps (full m (length ps)) && (length ps <=? n).
 
-(** [exact0]: false for events / links under limit 0, where the SDK's snapshot does not carry the
-    drop count (snapshot() copies droppedCount only when the queue is non-empty). *)
 Definition kind_lim_ok (lims : limits) (d : dropped) (past : list event) (sn : snap) (k : mkind) : bool :=
   let present := present_of (cut past) k sn in
   let total := length present + d_of d k in
-  let exact0 := match k, lim_of lims k with KAttr, _ => true | _, Some 0 => false | _, _ => true end in
-  (negb exact0 || (offered k true (pre_end past) <=? total)) && (total <=? offered k false (cut past)) &&
+  (offered k true (pre_end past) <=? total) && (total <=? offered k false (cut past)) &&
   match lim_of lims k with
   | None => d_of d k =? 0
-  | Some L => (length present <=? L) && (negb exact0 || (d_of d k =? 0) || (length present =? L))
+  | Some L => (length present <=? L) && ((d_of d k =? 0) || (length present =? L))
   end &&
   (* nothing dropped: wholly present or absent, present if returned before End was invoked *)
-  (negb (d_of d k =? 0) || negb exact0 ||
+  (negb (d_of d k =? 0) ||
    (forallb (fun e => match e with
                       | EvRet m (OMut k' n) _ =>
                           if mkind_eqb k k' then plist_eqb (parts_of m (sn_parts sn)) (full m (nparts (OMut k' n))) else true
